@@ -65,6 +65,8 @@ Inductive vside := VInput | VLoop | VLit (s : pstr).
 Record vtest := mkVTest { vt_neg : bool; vt_op : avop; vt_l : vside; vt_r : vside }.
 Inductive iter_order := SortedDesc | SortedAsc | InsertionOrder.
 Inductive setter_kind := SetSafeIsVersion | SetIsVersion | SetRaw.
+(* Gateway.alert: when is tasks.persistence.need_save set *)
+Inductive dirty_kind := DirtyAlways | DirtyOnlyWithCallback | DirtyNever.
 
 (* constructor calls found in README.md and the example scripts *)
 Record example := mkExample {
